@@ -149,9 +149,17 @@ class ExprMixin:
             b = self.eval(e.orelse, st)
         finally:
             st.guards.pop()
-        return self.merge_vals(c, a, b)
+        return self.merge_vals(c, a, b, st)
 
-    def merge_vals(self, c, a, b):
+    def merge_vals(self, c, a, b, st=None):
+        if st is not None and (a.x.get("frozen") is not None or b.x.get("frozen") is not None):
+            # a dict *value* (specification literal / old contents) on either side: merge the contents
+            da = self._inner(a) if a.ty.name == "Opt" else a
+            db_ = self._inner(b) if b.ty.name == "Opt" else b
+            if da.ty.name == "Dict" and db_.ty.name == "Dict":
+                da = Val(da.ty, da.t, **a.x) if a.ty.name == "Opt" else da
+                db_ = Val(db_.ty, db_.t, **b.x) if b.ty.name == "Opt" else db_
+                return Val(da.ty, z3.If(c, da.t, db_.t), frozen=z3.If(c, self.dict_map(da, st), self.dict_map(db_, st)))
         if a.ty == b.ty:
             if a.ty == NONE:
                 return a
@@ -253,6 +261,8 @@ class ExprMixin:
             return opt_of(ty).is_none(v.t)
         if ty == ANYREF:
             return v.t == 0
+        if ty == JV:
+            return v.t == jv_null       # a JSON value may be null
         return z3.BoolVal(False)
 
     def unopt(self, v, st, site=None, exc="TypeError"):
@@ -298,7 +308,7 @@ class ExprMixin:
         if a.ty == BOOL and b.ty == BOOL:
             return Val(BOOL, z3.If(c, a.t, b.t))
         try:
-            return self.merge_vals(c, a, b)
+            return self.merge_vals(c, a, b, st)
         except Unsupported:
             # only truthiness is meaningful
             return Val(BOOL, z3.If(c, self.truth(a, st), self.truth(b, st)))
@@ -436,6 +446,10 @@ class ExprMixin:
             j, o = (a, b) if a.ty == JV else (b, a)
             if o.ty == STR:
                 return z3.And(jv_is_str(j.t), jv_str(j.t) == o.t)
+            if o.ty == NONE or o.ty.name == "Opt":
+                # None is one JSON value; an Optional[str] is that or a string
+                return j.t == self.to_jv(o, st).t
+            raise Unsupported(f"equality between a JSON value and {o.ty}")
         return z3.BoolVal(False)
 
     def under_construction(self, obj, st):
